@@ -273,6 +273,9 @@ def expandKind : Kind → PExp
   | .disable c => .ref c
   | .action _ c => .ref c
   | .state _ c => .ref c
+  | .ifApply c _ => .ref c
+  | .applyR _ => .eps
+  | .control _ c => .ref c
 where
   /-- `partial< R₁, …, Rₙ >` without the final "always succeed": the longest successful
       prefix of the sequence. -/
